@@ -32,10 +32,14 @@ def converters(ck):
 def multicast(ck):
     """multicast players are consumers of the stream: when it ends every one of them has its connection closed"""
     import os
+    ck.model(ck.tlc("fanout", "McastProxy", "Mcast_TRUE.cfg", label="multicast proxy: join / leave / late exit of a stopped consumer, a Close from an older incarnation is ignored"))
+    neg = ck.tlc("fanout", "McastProxy", "Mcast_FALSE.cfg", must_pass=False, label="negative control: the late Close shuts down whatever runs now (as found before 883d5fa)")
+    if "NoCollateral" not in neg.violated:
+        raise Infra("negative control Mcast_FALSE does not violate NoCollateral")
     tr = os.path.join(ck.tmp, "mcast.ndjson")
     ck.run_driver("./transport", "^TestMulticast$", {"VERIF_OUT": tr}, timeout=600)
     n = sum(1 for _ in open(tr))
-    if n < 6:
+    if n < 7:
         raise Infra("multicast leg produced %d records" % n)
     rt = ck.tlc("fanout", "TransportTrace", "McastTrace.cfg", workers=1, env={"VERIF_TRACE": tr}, label="acceptance of the multicast-player leg")
     if rt.distinct != n + 1:
